@@ -96,3 +96,22 @@ func randomCmd(r *rand.Rand, x, f, date string) cmdSpec {
 		return cmdSpec{[]string{"stats"}, true, true, false}
 	}
 }
+
+// randomPeriod draws global period flags that select nothing, everything or an inverted interval: what a
+// command has to read, resolve and report as malformed does not depend on how many days the period keeps.
+// format renders a date in the layout in effect.
+func randomPeriod(r *rand.Rand, format func(y, m, d int) string) []string {
+	switch r.Intn(7) {
+	case 0:
+		return []string{"-b", format(2030, 1, 1)}
+	case 1:
+		return []string{"-e", format(1999, 1, 1)}
+	case 2:
+		return []string{"-b", format(2021, 1, 31), "-e", format(2021, 1, 1)}
+	case 3:
+		return []string{"--begin", "today", "--end", "yesterday"}
+	case 4:
+		return []string{"-b", format(1, 1, 1), "-e", format(9999, 12, 31)}
+	}
+	return nil
+}
